@@ -4,6 +4,7 @@ import (
 	"fmt"
 	"go/types"
 	"os"
+	"sort"
 	"strings"
 
 	"golang.org/x/tools/go/ssa"
@@ -336,6 +337,13 @@ func (t *FnTrans) acquireHavocOnly(mon *monRef, ref string) {
 func (t *FnTrans) release(mon *monRef, ref string) {
 	if mon == nil {
 		return
+	}
+	if os.Getenv("GOVC_DEBUG_TP") != "" {
+		for c, v := range t.cur.H {
+			if strings.HasPrefix(c, "GG.") {
+				fmt.Fprintf(os.Stderr, "release: %s = %.60s (guard %s)\n", c, v, t.guard)
+			}
+		}
 	}
 	for i, inv := range mon.mon.Inv {
 		env := t.monEnv(mon, ref)
@@ -734,6 +742,11 @@ func (t *FnTrans) atomicIntrinsic(key string, c *ssa.CallCommon, args []Val, res
 	case "Add":
 		ii, _ := intInfoOf(p.T)
 		nv := ii.wrap1(app("+", t.load(p), args[1].S))
+		if t.ct != nil && t.ct.Opts["assume-no-overflow"] != "" {
+			nv = app("+", t.load(p), args[1].S)
+			t.assume(ii.inRange(nv))
+			t.abstr["assumed: atomic Add does not overflow (opt assume-no-overflow)"] = true
+		}
 		t.store(p, nv)
 		if res != nil {
 			t.bind(res, nv)
@@ -897,6 +910,12 @@ func (t *FnTrans) ghostAt(where string) {
 	nth := 0
 	if strings.HasPrefix(where, "before call ") || strings.HasPrefix(where, "after call ") {
 		nth = t.count("ghostsite:" + where)
+		if o, ok := t.siteOrdinal(where[strings.Index(where, "call ")+5:]); ok {
+			nth = o // ordinal in source order
+		}
+		if os.Getenv("GOVC_DEBUG_TP") != "" {
+			fmt.Fprintf(os.Stderr, "ghostAt %q nth=%d at %s\n", where, nth, t.eng.prog.Fset.Position(t.curInstr.Pos()))
+		}
 	}
 	for _, g := range t.ct.Ghost {
 		if g.Arg == where || (nth > 0 && g.Arg == fmt.Sprintf("%s #%d", where, nth)) {
@@ -1103,7 +1122,6 @@ func (t *FnTrans) twoPhaseCheck() {
 	t.obls = append(t.obls, o)
 }
 
-
 // unguardedRead: `opt unguarded-read f, g`: reads of these guarded fields (and of their map contents) without
 // the lock are accepted in this function on the strength of an argument outside the lock discipline; recorded
 // as an assumption.
@@ -1118,4 +1136,64 @@ func (t *FnTrans) unguardedRead(field string) bool {
 		}
 	}
 	return false
+}
+
+// siteOrdinal: the ordinal (1-based, in source order) of the current call instruction among the call sites of
+// the same callee in this function. Callee names as used by "ghost before call <name>": Type.Method / Func for
+// static callees, Type#field for calls of function-typed fields.
+func (t *FnTrans) siteOrdinal(name string) (int, bool) {
+	if t.curInstr == nil {
+		return 0, false
+	}
+	if t.siteOrd == nil {
+		t.siteOrd = map[ssa.Instruction]int{}
+		byName := map[string][]ssa.Instruction{}
+		for _, b := range t.fn.Blocks {
+			for _, in := range b.Instrs {
+				var c *ssa.CallCommon
+				switch x := in.(type) {
+				case *ssa.Call:
+					c = &x.Call
+				case *ssa.Defer:
+					c = &x.Call
+				case *ssa.Go:
+					c = &x.Call
+				default:
+					continue
+				}
+				n := ""
+				if f := c.StaticCallee(); f != nil {
+					n = fnKey(f)
+				} else if u, ok := c.Value.(*ssa.UnOp); ok {
+					if fa, ok := u.X.(*ssa.FieldAddr); ok {
+						if pt, ok := t.resolve(fa.X.Type()).Underlying().(*types.Pointer); ok {
+							if nt, ok := t.resolve(pt.Elem()).(*types.Named); ok {
+								if st, ok := nt.Underlying().(*types.Struct); ok {
+									n = typeName(nt.Origin()) + "#" + st.Field(fa.Field).Name()
+								}
+							}
+						}
+					}
+				}
+				if n == "" {
+					continue
+				}
+				if i := strings.LastIndex(n, "/"); i >= 0 {
+					n = n[i+1:]
+				}
+				if i := strings.Index(n, "."); i >= 0 {
+					n = n[i+1:]
+				}
+				byName[n] = append(byName[n], in)
+			}
+		}
+		for _, ins := range byName {
+			sort.SliceStable(ins, func(i, j int) bool { return ins[i].Pos() < ins[j].Pos() })
+			for i, in := range ins {
+				t.siteOrd[in] = i + 1
+			}
+		}
+	}
+	o, ok := t.siteOrd[t.curInstr]
+	return o, ok
 }
